@@ -308,10 +308,17 @@ def parse_assumptions(out):
 def build_model():
     """Extract the models (coq/Extract.v -> ml/gen/*.ml) and build ml/driver.
     Returns the driver path.  Rebuilt when any model .v or the driver changes."""
-    srcfacts()
-    coq_makefile()
     gen = os.path.join(ML, "gen")
     os.makedirs(gen, exist_ok=True)
+    import fcntl
+    with open(os.path.join(gen, ".lock"), "w") as lk:
+        fcntl.flock(lk, fcntl.LOCK_EX)
+        return _build_model_locked(gen)
+
+
+def _build_model_locked(gen):
+    srcfacts()
+    coq_makefile()
     h = hashlib.sha256()
     for f in sorted(os.listdir(COQ)):
         if f.endswith(".v") and not f.startswith("Properties_") and not f.endswith("_lemmas.v"):
